@@ -45,6 +45,7 @@ type Exec struct {
 	globals      map[string]Val
 	assumeFalseAtExit bool
 	known     []*KnownFinding
+	entryHeld map[string][]Term
 	arrOf     map[string]string // heap array version -> array name
 	closedIface map[string]bool
 	topFrame  *Frame
